@@ -11,6 +11,7 @@ Operands (value position)
   ["r", v, f]     chained attribute   V[v].ref.<f>
   ["s", v]        the collection attribute V[v].s (pair of ints as a list)
   ["tt", v]       the tuple attribute V[v].t
+  ["c", v, k]     method call with argument V[v].plus(k)   (returns a + k; parameter k has the default 5)
 Conditions
   ["cmp", op, L, R]   op in eq ne lt le gt ge, built with the overloaded Python operator
   ["in", item, coll]  in_(item, coll)          ["contains", coll, item]  contains(coll, item)
@@ -19,6 +20,10 @@ Conditions
   ["big", v, k]       method call with argument V[v].big(k) (returns a > k)
   ["pf", v]           @predicate function pos(V[v])        (returns a > 0)
   ["PC", v]           Predicate subclass BigP(it=V[v])     (__call__ returns it.b > 1)
+  ["pv", O, k]        @predicate function val_above(O, k) over a VALUE operand O (returns value > k)
+  ["over", v, k]      method call V[v].over(k)             (returns a > k; parameter k has the default 5)
+  ["pq", v]           @predicate function whose body builds and evaluates its OWN query inside `with symbolic_mode():`
+                      (returns: some object of SUBQ["pool"] has a smaller a)
   ["and", c...]  ["or", c...]  ["not", c]     and_/or_/not_ ;  ["&", c1, c2] ["|", c1, c2] ["~", c] operator spelling
 """
 from __future__ import annotations
@@ -57,6 +62,12 @@ class Item:
         CALLS["big"] += 1
         return self.a > k
 
+    def over(self, k=5):
+        return self.a > k
+
+    def plus(self, k=5):
+        return self.a + k
+
     def __repr__(self):
         return "Item<%s>" % self.name
 
@@ -82,6 +93,12 @@ class Other:
     def big(self, k):
         CALLS["big"] += 1
         return self.a > k
+
+    def over(self, k=5):
+        return self.a > k
+
+    def plus(self, k=5):
+        return self.a + k
 
     def __repr__(self):
         return "Other<%s>" % self.name
@@ -129,6 +146,27 @@ class Made:
 def pos(x):
     CALLS["pos"] += 1
     return x.a > 0
+
+
+@predicate
+def val_above(val, k):
+    """Predicate over a VALUE (an attribute / index / call of a variable), not over the object."""
+    CALLS["val_above"] = CALLS.get("val_above", 0) + 1
+    return val > k
+
+
+SUBQ = {"pool": None}
+
+
+@predicate
+def has_smaller(x):
+    """A predicate that runs a sub-query of its own (opens and leaves a symbolic block while the outer query is evaluated)."""
+    with symbolic_mode():
+        y = let(Item, domain=SUBQ["pool"])
+        q = an(entity(y, y.a < x.a))
+    for _ in q.evaluate():
+        return True
+    return False
 
 
 @predicate
@@ -208,7 +246,7 @@ def cond_vars(c) -> List[str]:
     out = []
 
     def opv(o):
-        if o[0] in ("a", "t", "d", "v", "ra", "r", "s", "tt"):
+        if o[0] in ("a", "t", "d", "v", "ra", "r", "s", "tt", "c"):
             if o[1] not in out:
                 out.append(o[1])
 
@@ -218,9 +256,11 @@ def cond_vars(c) -> List[str]:
             opv(c[2]); opv(c[3])
         elif k in ("in", "contains"):
             opv(c[1]); opv(c[2])
-        elif k in ("flag", "m", "pf", "PC", "HT", "ff", "pf2", "PC2", "tr"):
+        elif k in ("flag", "m", "pf", "PC", "HT", "ff", "pf2", "PC2", "tr", "over", "pq"):
             if c[1] not in out:
                 out.append(c[1])
+        elif k == "pv":
+            opv(c[1])
         elif k == "big":
             if c[1] not in out:
                 out.append(c[1])
@@ -254,6 +294,8 @@ def extras_needed(c) -> set:
             opv(c[2]); opv(c[3])
         elif k in ("in", "contains"):
             opv(c[1]); opv(c[2])
+        elif k == "pv":
+            opv(c[1])
         elif k == "flag":
             need.add("f")
         elif k == "tr" and c[2] in ("sl", "t"):
@@ -344,6 +386,8 @@ def build_operand(o, V):
         return V[o[1]].s
     if k == "tt":
         return V[o[1]].t
+    if k == "c":
+        return V[o[1]].plus(o[2])
     raise ValueError(o)
 
 
@@ -365,6 +409,12 @@ def build(c, V):
         return V[c[1]].m()
     if k == "big":
         return V[c[1]].big(c[2])
+    if k == "over":
+        return V[c[1]].over(c[2])
+    if k == "pq":
+        return has_smaller(V[c[1]])
+    if k == "pv":
+        return val_above(build_operand(c[1], V), c[2])
     if k == "pf":
         return pos(V[c[1]])
     if k == "PC":
@@ -414,6 +464,8 @@ def operand_value(o, env):
         return env[o[1]].s
     if k == "tt":
         return env[o[1]].t
+    if k == "c":
+        return env[o[1]].a + o[2]
     raise ValueError(o)
 
 
@@ -454,6 +506,12 @@ def holds(alg, c, env, pools=None):
         return alg.cmp("gt", env[c[1]].a, 0)
     if k == "PC":
         return alg.cmp("gt", env[c[1]].b, 1)
+    if k == "over":
+        return alg.cmp("gt", env[c[1]].a, c[2])
+    if k == "pq":
+        return alg.or_(*[alg.cmp("lt", o.a, env[c[1]].a) for o in SUBQ["pool"]])
+    if k == "pv":
+        return alg.cmp("gt", operand_value(c[1], env), c[2])
     if k == "pf2":
         return alg.cmp("gt", env[c[1]].a, c[2])
     if k == "PC2":
@@ -507,6 +565,14 @@ def leaf_vocabulary(v="x", rich=True):
         L.append(["PC2", v, 0])
         L.append(["tr", v, "a"])
         L.append(["tr", v, "sl"])
+        L.append(["big", v, 0])                       # a falsy argument
+        L.append(["over", v, 0])                      # a falsy argument to a parameter that has a (different) default
+        L.append(["over", v, 2])
+        L.append(["cmp", "gt", ["c", v, 0], ["a", v, "b"]])      # call with a falsy argument as a comparison operand
+        L.append(["cmp", "le", ["a", v, "c"], ["c", v, 1]])
+        L.append(["pv", ["a", v, "b"], 0])            # predicate over attribute / index / call values
+        L.append(["pv", ["t", v, 1], 1])
+        L.append(["pv", ["c", v, 0], 2])
     return L
 
 
